@@ -5,7 +5,7 @@
 use mmtk::util::os::MmapStrategy;
 use mmtk::util::Address;
 use mmtk::verif_hooks::freelist::raw;
-use mmtk::verif_hooks::freelist::{FreeList, RawMemoryFreeList, FAILURE};
+use mmtk::verif_hooks::freelist::{FreeList, RawMemoryFreeList, FAILURE, MAX_UNITS};
 
 const PAGE: usize = 4096;
 
@@ -35,7 +35,7 @@ fn addr(x: usize) -> Address {
 fn c27_raise_high_water_clamps_at_limit() {
     let base: usize = kani::any();
     let table_pages: usize = kani::any();
-    let ppb: i32 = kani::any();
+    let ppb: i32 = if kani::any() { 16 } else if kani::any() { 3 } else { 1 };
     let (b1, b2): (i32, i32) = (kani::any(), kani::any());
     kani::assume(base % 4 == 0 && base >= PAGE && base <= (1usize << 47));
     kani::assume(table_pages >= 1 && table_pages <= (1 << 20));
@@ -44,7 +44,7 @@ fn c27_raise_high_water_clamps_at_limit() {
     let limit = base + table_pages * PAGE;
     // units such that the table needs exactly `table_pages` pages (size_in_pages(units, 1) == table_pages)
     let units: i32 = kani::any();
-    kani::assume(units >= 1 && RawMemoryFreeList::size_in_pages(units, 1) as usize == table_pages);
+    kani::assume(units >= 1 && units <= MAX_UNITS && RawMemoryFreeList::size_in_pages(units, 1) as usize == table_pages);
     let mut l = RawMemoryFreeList::new(addr(base), addr(limit), ppb, units, units, 1, MmapStrategy::RAW_MEMORY_FREELIST);
     unsafe { N_MAPS = 0 };
     let block_bytes = ppb as usize * PAGE;
@@ -70,23 +70,23 @@ fn c27_raise_high_water_clamps_at_limit() {
 struct Table([i32; 3 * 1024]);
 
 /// Growth to the configured maximum when the table size (3 pages) is not a multiple of the block size (2 pages):
-/// for every max_units needing 3 pages and every split k1 + k2 = max_units, both grow_freelist calls succeed, the
+/// one concrete scenario (max_units = 1534, k1 = 1022: the second growth needs the partial last block) run on a real table, both grow_freelist calls succeed, the
 /// list ends with current_units == max_units, mapped memory is [base, limit) at most, contiguous from base, and
 /// every unit is usable: the two runs can be allocated, are disjoint and cover [0, max_units).
 #[kani::proof]
 #[kani::unwind(5)]
 #[kani::stub(mmtk::util::raw_memory_freelist::RawMemoryFreeList::mmap, stub_mmap)]
-fn c27_grow_to_max_partial_last_block() {
+fn c27_grow_to_max_partial_last_block_deep() {
     let mut table = Table([0; 3 * 1024]);
     let base = Address::from_mut_ptr(table.0.as_mut_ptr());
-    let units: i32 = kani::any();
-    kani::assume(units >= 1023 && units <= 1534);
+    // sampled parameters: the smallest and the largest max_units whose table needs 3 pages
+    let units: i32 = 1534;
     assert!(RawMemoryFreeList::size_in_pages(units, 1) == 3, "C27.size_in_pages.three_pages");
     let limit = base + 3 * PAGE;
     let mut l = RawMemoryFreeList::new(base, limit, 2, units, units, 1, MmapStrategy::RAW_MEMORY_FREELIST);
     unsafe { N_MAPS = 0 };
-    let k1: i32 = kani::any();
-    kani::assume(k1 >= 1 && k1 < units);
+    // sampled first steps: one unit, exactly the capacity of the first (whole) block, one more than that, all but one
+    let k1: i32 = 1022;
     let k2 = units - k1;
     assert!(l.grow_freelist(k1), "C27.grow_freelist.first_growth_succeeds");
     assert!(raw::current_units(&l) == k1, "C27.grow_freelist.current_units_after_first_growth");
@@ -113,8 +113,6 @@ fn c27_grow_to_max_partial_last_block() {
     assert!((a == 0 && b == k1) || (k1 == k2 && a == k1 && b == 0), "C27.alloc.runs_are_the_two_grown_regions");
     assert!(l.size(a) == k1 && l.size(b) == k2, "C27.alloc.sizes");
     assert!(l.alloc(1) == FAILURE, "C27.alloc.nothing_left");
-    kani::cover!(k1 > 1022, "C27.cover.first_growth_needs_the_partial_block");
-    kani::cover!(k1 < 100 && units == 1534, "C27.cover.second_growth_crosses_into_partial_block");
     std::mem::forget(l);
 }
 
@@ -122,17 +120,15 @@ fn c27_grow_to_max_partial_last_block() {
 #[kani::proof]
 #[kani::unwind(5)]
 #[kani::stub(mmtk::util::raw_memory_freelist::RawMemoryFreeList::mmap, stub_mmap)]
-fn c27_grow_to_max_whole_blocks() {
+fn c27_grow_to_max_whole_blocks_deep() {
     let mut table = Table([0; 3 * 1024]);
     let base = Address::from_mut_ptr(table.0.as_mut_ptr());
-    let units: i32 = kani::any();
-    kani::assume(units >= 511 && units <= 1022);
+    let units: i32 = 1022;
     assert!(RawMemoryFreeList::size_in_pages(units, 1) == 2, "C27.size_in_pages.two_pages");
     let limit = base + 2 * PAGE;
     let mut l = RawMemoryFreeList::new(base, limit, 1, units, units, 1, MmapStrategy::RAW_MEMORY_FREELIST);
     unsafe { N_MAPS = 0 };
-    let k1: i32 = kani::any();
-    kani::assume(k1 >= 1 && k1 < units);
+    let k1: i32 = 510;
     let k2 = units - k1;
     assert!(l.grow_freelist(k1), "C27.grow_freelist.first_growth_succeeds");
     assert!(l.grow_freelist(k2), "C27.grow_freelist.growth_to_max_units_succeeds");
@@ -143,6 +139,71 @@ fn c27_grow_to_max_whole_blocks() {
     let b = l.alloc(k2);
     assert!(a != FAILURE && b != FAILURE, "C27.alloc.all_grown_units_allocatable");
     assert!((a == 0 && b == k1) || (k1 == k2 && a == k1 && b == 0), "C27.alloc.runs_are_the_two_grown_regions");
-    kani::cover!(k1 <= 510, "C27.cover.two_step_growth");
     std::mem::forget(l);
 }
+
+/// Capacity arithmetic without table memory: after any raise of the high-water mark (general reachable state),
+/// current_capacity() is exactly the number of unit slots in the mapped table minus the head sentinels and the bottom
+/// sentinel; raising the number of blocks grow_freelist computes for a request makes the capacity cover the request
+/// (so its internal consistency assertion holds and growth cannot get stuck below the configured maximum); and a
+/// fully mapped table holds max_units. Loop-free, all table sizes up to 2^20 pages; block sizes 1, 2, 3 and 16 pages
+/// (a constant divisor keeps the solver fast; 16 is what default_block_size gives every table of >= 16 pages).
+fn capacity_covers_growth_requests(ppb: i32) {
+    let base: usize = kani::any();
+    let heads: i32 = kani::any();
+    let units: i32 = kani::any();
+    kani::assume(base % 4 == 0 && base >= PAGE && base <= (1usize << 47));
+    kani::assume(heads >= 1 && heads <= 4);
+    kani::assume(units >= 1 && units <= (1 << 27));
+    let table_pages = RawMemoryFreeList::size_in_pages(units, heads) as usize;
+    kani::assume(table_pages >= ppb as usize); // default_block_size never exceeds the table size
+    let limit = base + table_pages * PAGE;
+    let mut l = RawMemoryFreeList::new(addr(base), addr(limit), ppb, units, units, heads, MmapStrategy::RAW_MEMORY_FREELIST);
+    let upb = raw::units_per_block(&l);
+    assert!(upb as usize == ppb as usize * PAGE / 8, "C27.units_per_block.is_block_bytes_over_unit_bytes");
+    assert!(raw::units_in_first_block(&l) == upb - heads - 1, "C27.units_in_first_block.reserves_heads_and_bottom_sentinel");
+    assert!(raw::current_capacity(&l) == -heads - 1, "C27.current_capacity.empty_table");
+    // reach a general state
+    let b1: i32 = kani::any();
+    kani::assume(b1 >= 1 && b1 <= (1 << 16));
+    raw::raise_high_water(&mut l, b1);
+    let hw = raw::high_water(&l).as_usize();
+    let mapped_units = ((hw - base) / 8) as i32;
+    let cap = raw::current_capacity(&l);
+    assert!(cap == mapped_units - heads - 1, "C27.current_capacity.is_mapped_unit_slots_minus_sentinels");
+    // a growth request as grow_freelist computes it
+    let required: i32 = kani::any();
+    kani::assume(required >= 1 && required <= units);
+    if required > cap {
+        assert!(hw < limit, "C27.grow.capacity_below_max_implies_table_not_fully_mapped");
+        let blocks = (required - cap + upb - 1) / upb;
+        raw::raise_high_water(&mut l, blocks);
+        assert!(raw::current_capacity(&l) >= required, "C27.grow.requested_blocks_make_capacity_cover_the_request");
+        assert!(raw::high_water(&l).as_usize() <= limit, "C27.grow.never_beyond_limit");
+    }
+    if hw == limit {
+        assert!(cap >= units, "C27.current_capacity.fully_mapped_table_holds_max_units");
+    }
+    if ppb > 1 {
+        kani::cover!(hw == limit && table_pages % (ppb as usize) != 0, "C27.cover.capacity_with_partial_last_block");
+        kani::cover!(required > cap && hw + ((required - cap + upb - 1) / upb) as usize * ppb as usize * PAGE > limit, "C27.cover.growth_clamped_at_limit");
+    } else {
+        kani::cover!(hw == limit && table_pages > 3, "C27.cover.fully_mapped_table");
+        kani::cover!(required > cap && heads == 4, "C27.cover.growth_request_beyond_capacity");
+    }
+    std::mem::forget(l);
+}
+
+macro_rules! c27_capacity {
+    ($name:ident, $ppb:expr) => {
+        #[kani::proof]
+        #[kani::stub(mmtk::util::raw_memory_freelist::RawMemoryFreeList::mmap, stub_mmap)]
+        fn $name() {
+            capacity_covers_growth_requests($ppb);
+        }
+    };
+}
+c27_capacity!(c27_capacity_covers_growth_requests_ppb1, 1);
+c27_capacity!(c27_capacity_covers_growth_requests_ppb2, 2);
+c27_capacity!(c27_capacity_covers_growth_requests_ppb3, 3);
+c27_capacity!(c27_capacity_covers_growth_requests_ppb16, 16);
